@@ -291,6 +291,12 @@ def point_body(case, rec):
                 # the kernel is a spike of width sqrt(t - t_start) << distance between the fixed quadrature nodes
                 rec.violation('C04/evaluate/zero_for_unresolved_spike', {'value': val, 'reference': ref, 'scale': peak,
                                                                          't_minus_t_start': t - tt[0], 'h_x': info['h']}, cj)
+            elif name == 'potential' and val == 0.0 and ref < 1e-100 and info['h']**2 / (t - tt[0]) > 1e4:
+                # the same spike seen from a point off the curve: the kernel exp(-d^2 / 4 tau) is narrower than the
+                # spacing of the fixed rule, every node lies farther from the point than the nearest point of the element
+                # and underflows, while the exact value (governed by the nearest point) is above the underflow range
+                rec.violation('C04/potential/zero_for_unresolved_spike', {'value': val, 'reference': ref, 'scale': peak,
+                                                                          't_minus_t_start': t - tt[0], 'h_x': info['h']}, cj)
             else:
                 rec.violation('C04/%s/%s' % (name, 'negative' if val < 0 else 'zero_where_positive'),
                               {'value': val, 'reference': ref, 'scale': peak, 't': t, 'x_hat': x}, cj)
